@@ -8,28 +8,32 @@ CONE = [
     'csep.core.regions.CartesianGrid2D.get_masked',
     'csep.core.catalogs.AbstractBaseCatalog.filter_spatial',
     'csep.core.catalogs.AbstractBaseCatalog.spatial_counts',
+    'csep.core.regions.CartesianGrid2D._build_bitmask_vec',
 ]
 ORACLE_MODULES = ['rt.oracles_grid']
 BOUNDED = os.path.exists(os.path.join(os.path.dirname(__file__), '..', 'rt', 'bounded_C01.py'))
 FLOAT_MODEL = ('R: coordinates and lattice are reals, eps = 2^-52 exactly; the tolerance zone granted below a cell boundary is '
                '1e-11*(|v| + (c+2)|anchor|); bit-exact behaviour at general edges is bounded only')
 TRUSTED = [
-    'representation invariant RI (xs/ys equally spaced, idx_map/bbox_mask describe the cells) is a PRECONDITION of the lookup contracts; '
-    'its establishment by __init__/_build_bitmask_vec (cleaner_range string handling, Polygon objects) is covered by the bounded stand-in only',
+    'representation invariant RI (xs/ys equally spaced, idx_map/bbox_mask describe the cells) is a PRECONDITION of the lookup contracts and '
+    'the POSTCONDITION of the constructor contract (_build_bitmask_vec: any set of distinct lattice cells, any order, holes, mask flags; loop invariant); '
+    'inside it cleaner_range is an ASSUMED contract (edges start + k*h: its decimal-string scaling is outside the engine, its exactness on decimal grids is bounded, C02); '
+    'NaN fills of the index map are unspecified numbers (nothing tests them); Polygon records carry their origin and four corners',
     'bin1d_vec contract (proved in the same run: the cone includes it)',
     'numpy fancy indexing a[I, J] with negative wrap, numpy.any, numpy.where',
     'pyvc engine, z3 5.1',
 ]
 ASSUMPTIONS = [
     'lattices with at least two rows and two columns (single row/column: bin1d_vec switches to its open-ended single-edge rule - finding D16)',
-    'dh > 4*|anchor|*2^-51 (spacing not lost in the round-off of the anchor)',
+    'dh > 4*|anchor|*2^-51 (spacing not lost in the round-off of the anchor); for the constructor: half a cell exceeds the binning tolerance at every cell midpoint',
     'floats as reals',
 ]
 EXPLANATION = ('get_index_of: a point inside the half-open cell of an active cell i gets index i; every reported index is an active cell that contains '
                'the point (up to the tolerance zone below its lower edges); ValueError only for a point inside no active cell; get_masked: same '
-               'partition; spatial_counts counts by that attribution')
+               'partition; spatial_counts counts by that attribution; _build_bitmask_vec establishes RI: cell j is found at its lattice position, '
+               'unmasked iff not flagged out, every other lattice position (holes, flagged-out cells) is masked, the edges are the lattice columns / rows')
 TECHNIQUE = ('contracts on the real methods against a ghost lattice view (representation invariant), bin1d_vec contract instantiated at the '
              'cell coordinates, z3; bounded lattice/ulp sweeps as labelled stand-in')
 LEVEL_TEXT = ('proof (model R) of the lookup/mask/count methods against the representation invariant for arbitrary lattices (any number of '
-              'cells, holes, flags, cell order) and arbitrary point arrays; constructor and float edge behaviour bounded only')
-LEVEL_NOTE = 'RI assumed as precondition; floats as reals; >= 2 rows and columns; numpy indexing semantics assumed'
+              'cells, holes, flags, cell order) and arbitrary point arrays, and of the constructor establishing that invariant (cleaner_range assumed); float edge behaviour bounded only')
+LEVEL_NOTE = 'RI established by the constructor contract (cleaner_range assumed) and used as precondition of the lookups; floats as reals; >= 2 rows and columns; numpy indexing semantics assumed'
